@@ -509,6 +509,7 @@ def forwardOK (rec : Frame → String → Bool) (P : Prog) (wh : Where) (n : Str
 /-- the names popped inside the argument list of the call whose uses-list tail this is -/
 def nestedPops : List Use → List String
   | .popIn m _ :: us => m :: nestedPops us
+  | .get _ _ :: us => nestedPops us        -- a `kwargs.get` between them (nested or not) consumes nothing
   | _ => []
 
 /-- execute the statements in order; `present` = `n` is still a key of `kwargs`.
